@@ -2,6 +2,7 @@ use crate::analysis::type_resolver::TypeResolver;
 use crate::models::EventInfo;
 use std::collections::HashMap;
 use std::path::Path;
+use syn::ext::IdentExt;
 use syn::{Expr, ExprMethodCall, File as SynFile, FnArg, Lit, Pat, Type};
 
 /// Parser for Tauri event emissions
@@ -461,8 +462,9 @@ impl EventParser {
                     if let Some(typ) = symbols.get(&name) {
                         return typ.clone();
                     }
-                    // Fallback: might be a type name used directly (like Status::Active)
-                    return name;
+                    // Fallback: might be a type name used directly (like Status::Active);
+                    // a raw identifier names the same item without its prefix
+                    return ident.unraw().to_string();
                 }
                 // Qualified paths (enum variants, associated constants) name a value, not a type
                 "unknown".to_string()
